@@ -15,13 +15,14 @@ import (
 func init() { Registry["C14"] = checkC14 }
 
 func checkC14(p *core.Prog, r *core.Report) {
-	r.Explanation = "Decides structural necessary conditions of lossless codecs by extracting the byte layout of every straight-line codec function from SSA (constant-bound loops expanded): (R1) every Encode of package protocol writes all 64 positions; (R2) for each of the 20 Encode/Decode pairs every field byte that Decode reads from position p is the byte Encode writes at p (little-endian multi-byte fields, widening before shifting), string fields are read from the region they are written to; (R3) LockCommand and LockResultCommand match the offsets documented in README.md; (R4) every hand-inlined decoder of lock frames in server/ and client/ (functions storing LockCommand fields from a byte buffer) agrees with LockCommand.Decode on every arm, and the inlined result encoder of BinaryServerProtocol agrees with LockResultCommand.Encode; (R5) every RESULT_* code indexes inside ERROR_MSG (every result code has a text rendering); (R7) the text forms COUNT n / RCOUNT n reach the wire as n-1 and results render Count+1 / Rcount+1. (R8) the text parser's in-argument cursor is only reset, accumulated or set to the argument length (a necessary condition of chunking independence; found a real defect, repaired). NOT decided: the rest of chunking independence, Build/Parse round trip, binary-safety of arguments, effect equivalence of text and binary LOCK, key normalisation (MD5/hex paths)."
+	r.Explanation = "Decides structural necessary conditions of lossless codecs by extracting the byte layout of every straight-line codec function from SSA (constant-bound loops expanded): (R1) every Encode of package protocol writes all 64 positions; (R2) for each of the 20 Encode/Decode pairs every field byte that Decode reads from position p is the byte Encode writes at p (little-endian multi-byte fields, widening before shifting), string fields are read from the region they are written to; (R3) LockCommand and LockResultCommand match the offsets documented in README.md; (R4) every hand-inlined decoder of lock frames in server/ and client/ (functions storing LockCommand fields from a byte buffer) agrees with LockCommand.Decode on every arm, and the inlined result encoder of BinaryServerProtocol agrees with LockResultCommand.Encode; (R5) every RESULT_* code indexes inside ERROR_MSG (every result code has a text rendering); (R7) the text forms COUNT n / RCOUNT n reach the wire as n-1 and results render Count+1 / Rcount+1. (R8) the text parser's in-argument cursor is only reset, accumulated or set to the argument length (a necessary condition of chunking independence; found a real defect, repaired). (R9) the key/id normaliser defines all 16 bytes of its destination on every path (short arguments left-padded with zeros even in a recycled command). NOT decided: the rest of chunking independence, Build/Parse round trip, binary-safety of arguments, effect equivalence of text and binary LOCK, key normalisation (MD5/hex paths)."
 	r.Assumptions = []string{"Go type checker and go/ssa are correct for /repo", "codec functions are straight-line apart from constant-bound loops (anything else is reported as uninterpreted)"}
 	c14R123(p, r)
 	c14R4(p, r)
 	c14R5(p, r, "C14/R5")
 	c14R7(p, r)
 	c14R8(p, r)
+	c14R9(p, r)
 }
 
 // c14R8: the text parser is resumable - it returns in the middle of an argument
@@ -487,3 +488,226 @@ func c14R7(p *core.Prog, r *core.Report) {
 }
 
 var _ = ssa.Value(nil)
+
+// c14R9: key / id normalisation writes into the LockKey / LockId field of a
+// LockCommand that is recycled from a pool and never cleared, so the
+// normaliser itself must define all 16 bytes on every path ("at most 16 bytes
+// left-padded with zeros"). Per path the set of definitely written positions
+// is collected from constant-index stores, whole-array stores, constant-bound
+// loops all of whose body paths store element i, and copies whose start is
+// constant and whose length is known (array type, len(x)==k on the path,
+// hex.DecodeString of a string of known length).
+func c14R9(p *core.Prog, r *core.Report) {
+	const rule = "C14/R9"
+	r.Rule(rule, "ConvertArgId2LockId defines all 16 bytes of the destination on every path (short arguments are left-padded with zeros even when the destination holds an older key)", 1)
+	fn := mustFunc(p, r, "protocol.(*TextCommandConverter).ConvertArgId2LockId")
+	if fn == nil || len(fn.Params) < 3 {
+		return
+	}
+	dst := fn.Params[2]
+	isDst := func(v ssa.Value) bool { return v == ssa.Value(dst) }
+	// loops: induction phi i over [lo,hi) such that every path through the body stores dst[i]
+	loopCover := map[*ssa.Phi][2]int{}
+	for _, b := range fn.Blocks {
+		for _, ins := range b.Instrs {
+			ph, ok := ins.(*ssa.Phi)
+			if !ok {
+				continue
+			}
+			rg, ok := inductionRange(ph)
+			if !ok {
+				continue
+			}
+			// blocks storing dst[ph]
+			storeBlocks := map[*ssa.BasicBlock]bool{}
+			for _, bb := range fn.Blocks {
+				for _, ii := range bb.Instrs {
+					if st, ok := ii.(*ssa.Store); ok {
+						if ia, ok := st.Addr.(*ssa.IndexAddr); ok && isDst(ia.X) && ia.Index == ssa.Value(ph) {
+							storeBlocks[bb] = true
+						}
+					}
+				}
+			}
+			if len(storeBlocks) == 0 {
+				continue
+			}
+			// body entry: the successor of the header's test that stays in the loop
+			hdr := ph.Block()
+			escape := false
+			for _, succ := range hdr.Succs {
+				if !blockReaches(succ, hdr) {
+					continue // loop exit
+				}
+				seen := map[*ssa.BasicBlock]bool{}
+				work := []*ssa.BasicBlock{succ}
+				for len(work) > 0 {
+					c := work[len(work)-1]
+					work = work[:len(work)-1]
+					if seen[c] || storeBlocks[c] {
+						continue
+					}
+					seen[c] = true
+					if c == hdr {
+						escape = true // back at the header without a store
+						break
+					}
+					work = append(work, c.Succs...)
+				}
+			}
+			if !escape {
+				loopCover[ph] = [2]int{rg.lo, rg.hi}
+			}
+		}
+	}
+	knownLen := func(x *core.X, v ssa.Value) (int, bool) {
+		// slice of an array
+		if sl, ok := v.(*ssa.Slice); ok && sl.Low == nil && sl.High == nil {
+			if pt, ok := sl.X.Type().Underlying().(*types.Pointer); ok {
+				if at, ok := pt.Elem().Underlying().(*types.Array); ok {
+					return int(at.Len()), true
+				}
+			}
+		}
+		e := "len(" + core.Plain(x.Canon(v).S) + ")"
+		for _, a := range x.St.Facts.All() {
+			if core.Plain(a.L) == e && a.Op == "==" {
+				if n, err := strconv.Atoi(a.R); err == nil {
+					return n, true
+				}
+			}
+		}
+		// hex.DecodeString(s) with err == nil: len(s)/2
+		if ex, ok := v.(*ssa.Extract); ok && ex.Index == 0 {
+			if c, ok := ex.Tuple.(*ssa.Call); ok {
+				if callee := c.Common().StaticCallee(); callee != nil && callee.Pkg != nil && callee.Pkg.Pkg.Path() == "encoding/hex" && callee.Name() == "DecodeString" {
+					arg := "len(" + core.Plain(x.Canon(c.Common().Args[0]).S) + ")"
+					for _, a := range x.St.Facts.All() {
+						if core.Plain(a.L) == arg && a.Op == "==" {
+							if n, err := strconv.Atoi(a.R); err == nil {
+								return n / 2, true
+							}
+						}
+					}
+				}
+			}
+		}
+		return 0, false
+	}
+	mark := func(x *core.X, lo, hi int) {
+		for i := lo; i < hi && i < 16; i++ {
+			if i >= 0 {
+				x.Set(fmt.Sprintf("w:%d", i), "1")
+			}
+		}
+	}
+	ex := core.NewExplorer(p, core.Hooks{
+		Track: func(x *core.X, a core.Atom) bool { return strings.HasPrefix(core.Plain(a.L), "len(") },
+		Instr: func(x *core.X) {
+			if !x.Top() {
+				return
+			}
+			switch t := x.Ins.(type) {
+			case *ssa.Store:
+				if isDst(t.Addr) {
+					mark(x, 0, 16)
+					return
+				}
+				ia, ok := t.Addr.(*ssa.IndexAddr)
+				if !ok || !isDst(ia.X) {
+					return
+				}
+				if c, ok := ia.Index.(*ssa.Const); ok && c.Value != nil {
+					n := int(c.Int64())
+					mark(x, n, n+1)
+				} else if ph, ok := ia.Index.(*ssa.Phi); ok {
+					if rg, ok := loopCover[ph]; ok {
+						mark(x, rg[0], rg[1])
+					}
+				}
+			case *ssa.Call:
+				bi, ok := t.Common().Value.(*ssa.Builtin)
+				if !ok || bi.Name() != "copy" {
+					return
+				}
+				sl, ok := t.Common().Args[0].(*ssa.Slice)
+				if !ok || !isDst(sl.X) {
+					return
+				}
+				start, startKnown := 0, true
+				if sl.Low != nil {
+					if c, ok := sl.Low.(*ssa.Const); ok && c.Value != nil {
+						start = int(c.Int64())
+					} else {
+						startKnown = false
+					}
+				}
+				n, lenKnown := knownLen(x, t.Common().Args[1])
+				if startKnown && lenKnown {
+					mark(x, start, start+n)
+				} else {
+					x.Set("opaque", x.Pos())
+					if !startKnown {
+						// a start that is provably >= 1 leaves position 0 to the other writes
+						lowExpr := core.Plain(x.Canon(sl.Low).S)
+						if lb := x.St.Facts.LowerBound(lowExpr); lb >= 1 {
+							x.Set("gap", "1")
+						} else if strings.HasPrefix(lowExpr, "(16 - len(") {
+							inner := strings.TrimSuffix(strings.TrimPrefix(lowExpr, "(16 - "), ")")
+							// len(arg) <= 15 on the path: the copy starts at 1 or later
+							if x.St.Facts.UpperBound(inner) <= 15 {
+								x.Set("gap", "1")
+							}
+						}
+					}
+				}
+			}
+		},
+		Exit: func(x *core.X, rets []core.Expr) {
+			missing := []string{}
+			for i := 0; i < 16; i++ {
+				if x.Get(fmt.Sprintf("w:%d", i)) != "1" {
+					missing = append(missing, strconv.Itoa(i))
+				}
+			}
+			var cls []string
+			for _, a := range x.St.Facts.All() {
+				if strings.HasPrefix(core.Plain(a.L), "len(") {
+					cls = append(cls, stable(core.Plain(a.String())))
+				}
+			}
+			sort.Strings(cls)
+			key := "protocol.(*TextCommandConverter).ConvertArgId2LockId: path{" + strings.Join(cls, " && ") + "}"
+			switch {
+			case len(missing) == 0:
+				r.Hold(rule, key, x.Pos(), "all 16 bytes defined")
+			case x.Get("opaque") == "" || (x.Get("gap") == "1" && x.Get("w:0") != "1"):
+				r.Violate(rule, key, x.Pos(), "positions "+strings.Join(missing, ",")+" of the key/id are not written on this path: a LockCommand recycled from the pool keeps bytes of its previous key there, so a short key is not left-padded with zeros and addresses a different lock than its binary form", x.St.Trace)
+			default:
+				r.Undecide(rule, key, x.Pos(), "positions "+strings.Join(missing, ",")+" are covered only by a copy whose start or length the analysis cannot bound ("+x.Get("opaque")+")")
+			}
+		},
+	})
+	ex.Run(fn, nil)
+	if ex.Imprecise != "" {
+		r.Fail("C14/R9: %s", ex.Imprecise)
+	}
+}
+
+func blockReaches(from, to *ssa.BasicBlock) bool {
+	seen := map[*ssa.BasicBlock]bool{}
+	work := []*ssa.BasicBlock{from}
+	for len(work) > 0 {
+		c := work[len(work)-1]
+		work = work[:len(work)-1]
+		if c == to {
+			return true
+		}
+		if seen[c] {
+			continue
+		}
+		seen[c] = true
+		work = append(work, c.Succs...)
+	}
+	return false
+}
